@@ -792,8 +792,18 @@ class Bridge(wiring.Component):
         m = Module()
 
         m.submodules.mux = self._mux
+        # Submodule names are derived from register names for readability only. Distinct register
+        # names may spell the same identifier (e.g. a register called "mux", or `("a", "b")` next
+        # to `"a__b"`, or index `0` next to cluster `"0"`); a numeric suffix keeps them apart.
+        submodule_names = {"mux"}
         for reg, reg_name, _ in self.bus.memory_map.resources():
-            m.submodules["__".join(str(part) for part in reg_name)] = reg
+            submodule_name = base_name = "__".join(str(part) for part in reg_name)
+            suffix = 0
+            while submodule_name in submodule_names:
+                suffix += 1
+                submodule_name = f"{base_name}_{suffix}"
+            submodule_names.add(submodule_name)
+            m.submodules[submodule_name] = reg
 
         connect(m, flipped(self.bus), self._mux.bus)
 
